@@ -48,6 +48,9 @@ impl Scenario for StatsScn {
         let scn = self.clone();
         let result: Arc<Mutex<Option<(SinkStats, Tally, Vec<String>)>>> = Arc::new(Mutex::new(None));
         let res2 = result.clone();
+        if scn.mode == "queue" {
+            return queue_variant(scn, result);
+        }
         let body = Box::new(move || {
             let tally = Arc::new(Mutex::new(Tally::default()));
             let notes = Arc::new(Mutex::new(Vec::<String>::new()));
@@ -159,6 +162,106 @@ impl Scenario for StatsScn {
         });
         (body, judge)
     }
+}
+
+/// The figures read through a bounded queuing sink whose worker is held up (so that some emits are
+/// refused by the queue) must be the wrapped socket sink's own figures.
+fn queue_variant(
+    scn: StatsScn,
+    result: Arc<Mutex<Option<(SinkStats, Tally, Vec<String>)>>>,
+) -> (Box<dyn FnOnce() + Send + 'static>, Box<dyn FnOnce(&EndState) -> Verdict + Send + 'static>) {
+    struct Gated {
+        inner: UdpMetricSink,
+        gate: rt::Gate,
+        sent: Arc<Mutex<Tally>>,
+    }
+    impl MetricSink for Gated {
+        fn emit(&self, m: &str) -> io::Result<usize> {
+            self.gate.pass("gate");
+            let r = self.inner.emit(m);
+            let mut t = self.sent.lock().unwrap();
+            if r.is_ok() {
+                t.packets_sent += 1;
+                t.bytes_sent += m.len() as u64;
+            } else {
+                t.packets_dropped += 1;
+                t.bytes_dropped += m.len() as u64;
+            }
+            r
+        }
+        fn stats(&self) -> SinkStats {
+            self.inner.stats()
+        }
+    }
+    let res2 = result.clone();
+    let body = Box::new(move || {
+        let rx = Rx::udp(false).unwrap();
+        let inner = UdpMetricSink::from(rx.addr(), UdpSocket::bind("127.0.0.1:0").unwrap()).unwrap();
+        let gate = rt::Gate::new(false);
+        let sent = Arc::new(Mutex::new(Tally::default()));
+        let q = cadence::QueuingMetricSink::with_capacity(
+            Gated {
+                inner,
+                gate: gate.clone(),
+                sent: sent.clone(),
+            },
+            1,
+        );
+        let mut refused = 0;
+        for (k, op) in scn.prog[0].bytes().enumerate() {
+            let m = if op == b'e' { "x".repeat(65508) } else { "m".repeat(3 + k) };
+            if q.emit(&m).is_err() {
+                refused += 1;
+            }
+        }
+        gate.open();
+        rt::wait_quiescent();
+        let stats = q.stats();
+        let t = sent.lock().unwrap().clone();
+        *res2.lock().unwrap() = Some((stats, t, vec![format!("refused by the queue: {}", refused)]));
+        drop(q);
+        let _ = rx.drain();
+    });
+    let judge = Box::new(move |end: &EndState| {
+        let mut out: Vec<Breach> = vec![];
+        let mut summary = String::new();
+        let mut sig = 0;
+        let mut flags = vec![];
+        match result.lock().unwrap().clone() {
+            None => out.push(Breach {
+                props: vec!["C14"],
+                sig: "stuck".into(),
+                what: format!("the program did not finish: {:?}", end.unfinished()),
+            }),
+            Some((s, t, notes)) => {
+                let g = Tally {
+                    bytes_sent: s.bytes_sent,
+                    packets_sent: s.packets_sent,
+                    bytes_dropped: s.bytes_dropped,
+                    packets_dropped: s.packets_dropped,
+                };
+                summary = format!("through the queuing sink={:?} wrapped sink's sends={:?} {:?}", g, t, notes);
+                sig = hash_of(&summary);
+                if notes.iter().any(|n| !n.ends_with(": 0")) {
+                    flags.push("queue-refused-an-emit");
+                }
+                if g != t {
+                    out.push(Breach {
+                        props: vec!["C14"],
+                        sig: "stats-through-queue-differ".into(),
+                        what: format!("stats() read through the queuing sink reports {:?} but the wrapped socket sink made sends adding up to {:?} ({:?})", g, t, notes),
+                    });
+                }
+            }
+        }
+        Verdict {
+            breaches: out,
+            outcome: sig,
+            flags,
+            summary,
+        }
+    });
+    (body, judge)
 }
 
 pub fn run(spec: &crate::Spec) -> Report {
